@@ -358,8 +358,11 @@ def round_up(x):
 
 
 def xround(x, d, func=round_up):
-    d = 10 ** int(d)
-    v = func(abs(x * d)) / d
+    d, x = int(d), float(x)
+    v = abs(Decimal(repr(x))).scaleb(d)  # Decimal form of `x`, scaled.
+    if not v.is_finite() or v.as_tuple().exponent >= 0:
+        return x  # Nothing to round.
+    v = float(Decimal(func(v)).scaleb(-d))
     return -v if x < 0 else v
 
 
